@@ -2,25 +2,27 @@
 (* Trace validation for Polynomial<f64>::roots / Polynomial<Cmplx>::roots (C10).        *)
 (* One event per call.  The harness measures (reference arithmetic: double-double)     *)
 (*   count     number of returned values,   finite   all parts finite,                 *)
-(*   be_units  ceil( max_z |p(z)| / (max|a_k| * max(1,|z|)^n) / 1e-6 ),                *)
+(*   be_units  ceil( max_z |p(z)| / (max|a_k| * max(1,|z|)^n) / 1e-6 ), be_e15 the same in *)
+(*             units of 1e-15 (saturating); the per-path guard table is Roots!BeOK,       *)
 (*   match_units  ceil( bottleneck distance between returned and true roots / (1e-6 *  *)
 (*             max(1, max|r_i|)) ) when the nearest-root assignment is one-to-one,     *)
 (*             saturated otherwise (only meaningful for well-separated roots, `sep`),  *)
 (*   zr, zi    the returned values rounded to the nearest Gaussian integers (cases     *)
 (*             whose true roots rre, rim are Gaussian integers, `exact`).              *)
+(* Events with a `step` field belong to a sequence of calls on ONE object (observe,     *)
+(* mutate through IndexMut / coeffs() / trim, observe again): every measurement is      *)
+(* taken against the CURRENT coefficients, so a value remembered from before a mutation *)
+(* is rejected by the same guards.                                                      *)
 (* chk says which clauses an event carries ("all"; or "shape" / "be" / "match" when one    *)
 (* call is reported as three events).  The guards live here: what the call must deliver is the outcome of the control      *)
 (* skeleton of Roots.tla (degree 0 rejected, otherwise `degree` values, all finite),   *)
-(* backward error <= 1e-6 (1 unit), and for separated roots a one-to-one match within  *)
+(* backward error within the per-path guard of Roots.tla, and for separated roots a one-to-one match within  *)
 (* 1e-6*scale - decided on integers as set equality when the true roots are integers.  *)
 EXTENDS TraceBase, Poly
 VARIABLES l
 vars == <<l>>
 K == INSTANCE Roots WITH QZeroGuard <- TRUE, StopOnNonFinite <- TRUE, MaxIt <- 80
 
-\* units of 1e-6.  Calibrated (22 seeds, 1.0e6 calls): worst conforming value 6.3e-11 on every path except the cubic solved by
-\* Cardano's formula without refinement, where the discriminant cancels for (near-)triple roots: worst 1.3e-7 -> guard 1e-4 there
-BeGuard(deg, refine) == IF deg = 3 /\ ~refine THEN 100 ELSE 1
 MatchGuard == 1
 PairSet(a, b) == {<<a[i], b[i]>> : i \in 1..Len(a)}
 
@@ -31,7 +33,9 @@ Explained(e) ==
        IF f.pc = "panic" THEN e.panic                                 \* degree 0 is rejected
        ELSE IF ~e.lead_nz THEN TRUE                                   \* outside the property
        ELSE /\ (e.chk \in {"all", "shape"} => (~e.panic /\ e.count = K!Produced(f) /\ (K!AllFinite(f) => e.finite)))
-            /\ (e.chk \in {"all", "be"} => e.be_units <= BeGuard(e.deg, e.refine))
+            \* sequences on one object: the object's coefficients must be the current ones (mutators took effect, observers changed nothing)
+            /\ (Has(e, "synced") => e.synced)
+            /\ (e.chk \in {"all", "be"} => K!BeOK(e.deg, e.refine, e.be_e15, e.be_units))
             /\ (e.chk \in {"all", "match"} =>
                    /\ (e.sep => e.match_units <= MatchGuard)
                    /\ ((e.sep /\ e.exact) => (Len(e.zr) = Len(e.rre) /\ Len(e.zi) = Len(e.rre) /\ PairSet(e.zr, e.zi) = PairSet(e.rre, e.rim))))
